@@ -1234,7 +1234,7 @@ package mast
 
 //@ abstract NodeCache.Add (c key value) -> ()
 //@ pure
-//@ requires durable [C03 C11 C17] (and (= (a.tid key) tid.string) (isDurable H (unbox_Bytes (a.val key))))
+//@ requires durable [C02 C03 C05 C08 C11 C13 C17] (and (= (a.tid key) tid.string) (isDurable H (unbox_Bytes (a.val key))))
 
 //@ abstract chan.send (ch) -> ()
 //@ pure
@@ -1244,7 +1244,7 @@ package mast
 //@ ensures healthy (=> healthy (= err anil))
 
 //@ func (*mastNode).store$1
-//@ tags C03 C08 C11 C17
+//@ tags C02 C03 C05 C08 C11 C13 C17
 //@ modifies W G.durable Box.Any Arr.Any@fresh
 //@ requires boxes (and (distinct err persist cache) (distinct hash cacheKey) (<= err W) (<= persist W) (<= hash W) (<= encoded W) (<= cache W) (<= cacheKey W) (<= node W) (not (isNil (Box.Any H persist))))
 //@ requires name [C03 C08] (= (Box.Bytes H hash) (nameHash (bs.val (Box.BS H encoded))))
